@@ -71,6 +71,9 @@ RULE = ('cases: (1) sinusoids amp*sin(2 pi f t+phi), f = edge x {0.1,0.3,0.5,0.8
         'trips, copy.copy + reset_values, deepcopy, continuing with the copy OR the original (the other one re-checked and '
         'used once more at the end), assignments to .values / .dt / .label / .smooth_fa_freqs (list, tuple, ndarray; 1, 2, 3, '
         'n entries) and refused calls (series / signal mismatch, corner >= Nyquist, 3 corners, scalar cut-off) in between; '
+        '(10) round 4: records of 1..6 samples x every degree 0..4 (26 combinations, npts <= k included: result must be '
+        'zero; one sample with k >= 1 raises inside numpy.polyfit on the clean tree: probed, counted only), every add '
+        'variant x 1..6 samples, running average on 1..6 samples with widths 1..min(25, 2n+3) and 1..25; '
         'f(A); f(B); f(A) with B of the same or another shape and the same or other option values; time steps that differ '
         'by 0.1 % in add_signal. distinct = digest of the complete parameter set of the case.')
 ASSUMPTIONS = ['finite real records; integer records of any width are in domain (the library must not compute in them)',
@@ -87,6 +90,12 @@ ASSUMPTIONS = ['finite real records; integer records of any width are in domain 
                'a float32 record may carry float32 rounding (1e-6 relative) through sums, means and the Gibbs pad value',
                'running average: each output is judged relative to its own window (16 eps x window length x max|x| in '
                'the window); detrending and filter relations relative to the global scale x conditioning',
+               'detrending a record of npts <= k samples (k <= 4, so npts = 2..4): the polynomials of degree <= k take every '
+               'value pattern on npts positions, so the best-fit VALUES are unique (= the record) and the result is zero; '
+               'judged with the effective degree min(k, npts-1) and the tolerance 1e-9 x cond(Vandermonde(npts, npts-1)) x '
+               'max|x| (cond = 2.6, 15, 99 for npts = 2, 3, 4; valid while numpy.polyfit\'s rank cut-off npts*eps keeps all '
+               'npts genuine singular values, i.e. for every npts <= k <= 4; clean residuals are ~1e-15 max|x|); one sample '
+               'with k >= 1 is outside the domain (numpy.polyfit raises LinAlgError on the clean tree)',
                'a real width w >= 1 means floor(w/2) positions on each side',
                'time-step mismatch is tested with steps that differ by >= 0.1 % (no knife edge)',
                'argument purity is not demanded when the caller passes the object itself / its own buffer to an add',
@@ -287,9 +296,17 @@ def _check_detrend(ctx, api, before, after, k, wit):
         ctx.observe('detrend.unparsed-call')
         return
     n = len(x)
-    if x.ndim != 1 or not (0 <= k <= 4) or n < k + 1 or not _finite(x):
+    if x.ndim != 1 or not (0 <= k <= 4) or n < 1 or not _finite(x):
         ctx.observe('detrend.out-of-quantifier')
         return
+    if n == 1 and k >= 1:
+        # numpy's polyfit raises on the clean tree (one position, all columns of the scaled design matrix 0/0): outside
+        ctx.observe('detrend.one-sample-degree>=1.outside-domain')
+        return
+    # round 4: records of npts <= k samples are records too. On n positions the polynomials of degree <= k span the same
+    # values as those of degree <= min(k, n-1) (for n <= k: every series), so the best-fit VALUES are unique although the
+    # coefficients are not, and every clause below is judged with the effective degree ke (for n <= k: result == 0).
+    ke = min(k, n - 1)
     r = np.asarray(after, dtype=float)
     pre = 'detrend.%s.k%d.' % (api, k)
     if r.shape != x.shape:
@@ -297,22 +314,30 @@ def _check_detrend(ctx, api, before, after, k, wit):
                       % (r.shape, n))
         return
     scale = float(np.max(np.abs(x)))
-    allowed = DETREND_RTOL * O.vander_cond(n, k) * scale
+    allowed = DETREND_RTOL * O.vander_cond(n, ke) * scale
     if not _finite(r):
         ctx.violation(pre + 'bestfit-zero', wit({'nonfinite': True}), 'detrended series contains NaN/inf')
         return
-    fit = O.poly_part(r, k)
+    if n <= k:
+        # the class counted on its own (MIN_EVALS): n samples are interpolated by a polynomial of degree n-1 <= k, hence
+        # the best-fit degree-k polynomial IS the series and nothing is left
+        e0 = float(np.max(np.abs(r)))
+        ctx.check(e0 <= allowed, 'detrend.%s.npts<=k.residual-zero' % api,
+                  lambda: wit({'residual_max': e0, 'allowed': allowed, 'npts': n, 'k': k}),
+                  'a record of %d samples detrended with degree %d (>= npts) must come out as zeros (its best-fit degree-%d '
+                  'polynomial interpolates it): max|result|=%.3g (allowed %.3g, max|x|=%.3g)' % (n, k, k, e0, allowed, scale))
+    fit = O.poly_part(r, ke)
     e1 = float(np.max(np.abs(fit)))
     ctx.check(e1 <= allowed, pre + 'bestfit-zero',
               lambda: wit({'bestfit_max': e1, 'allowed': allowed, 'mean_after': float(np.mean(r))}),
               'best-fit degree-%d polynomial of the detrended series is not zero: max|fit|=%.3g (allowed %.3g, '
               'max|x|=%.3g, n=%d, mean after=%.3g)' % (k, e1, allowed, scale, n, float(np.mean(r))))
     removed = x - r
-    e2 = float(np.max(np.abs(removed - O.poly_part(removed, k))))
+    e2 = float(np.max(np.abs(removed - O.poly_part(removed, ke))))
     ctx.check(e2 <= allowed, pre + 'removed-is-poly',
               lambda: wit({'nonpoly_max': e2, 'allowed': allowed}),
               'removed part is not a polynomial of degree <= %d: distance %.3g (allowed %.3g)' % (k, e2, allowed))
-    ref = x - O.poly_part(x, k)
+    ref = x - O.poly_part(x, ke)
     e3 = float(np.max(np.abs(r - ref)))
     ctx.check(e3 <= allowed, pre + '==lstsq-reference',
               lambda: wit({'err': e3, 'allowed': allowed}),
@@ -378,6 +403,11 @@ def _check_sum(ctx, clause, fn, sig, pre, addend, call):
               % (fn, before.dtype, np.asarray(addend).dtype, after.dtype,
                  tol.describe(after, ref, scale=scale, rtol=rtol) if after.shape == ref.shape
                  else 'shape %s' % (after.shape,)))
+    if pre['npts'] <= 6:
+        # the same verdict counted for the class of very short records (MIN_EVALS guards that the class is driven)
+        ctx.check(ok, 'add.npts<=6==element-wise-sum',
+                  lambda: _wit(fn, pre, {'after': after, 'expected': ref}, **call),
+                  '%s on a record of %d samples is not the element-wise sum' % (fn, pre['npts']))
 
 
 def _pre_add_arg(name):
@@ -550,6 +580,11 @@ def _post_running_average(args, kwargs, result, pre):
                                                     'at': None if idx is None else int(idx[0])}, **call),
               'running_average(%r) on %d %s samples: %s (allowed = %.3g * window length * max|x| in the window)'
               % (width, len(x), x.dtype, tol.describe(after, ref, scale=scale, rtol=rtol, atol=RUNAVG_FLOOR), rtol))
+    if len(x) <= 6:
+        ctx.check(ok, 'runavg.npts<=6==mean-of-original-window',
+                  lambda: _wit('running_average', pre, {'after': after, 'expected': ref}, **call),
+                  'running_average(%r) on a record of %d samples is not the mean over the (clipped) window'
+                  % (width, len(x)))
 
 
 def install(ctx):
@@ -859,7 +894,10 @@ def case_detrend(eqsig, ctx, p):
     poly = O.polynomial(n, p['coefs'])
     xf = x.astype(float)
     scale = float(np.max(np.abs(xf)))
-    cond = O.vander_cond(n, k)
+    if n == 1 and k >= 1:
+        _probe_one_sample(eqsig, ctx, p)
+        return
+    cond = O.vander_cond(n, min(k, n - 1))       # npts <= k: the polynomials of degree <= k span what degree n-1 spans
     allowed = DETREND_RTOL * cond * scale
     allowed_p = DETREND_RTOL * cond * (scale + float(np.max(np.abs(poly))))
     form = p.get('form')
@@ -927,6 +965,23 @@ def case_detrend(eqsig, ctx, p):
             e = float(np.max(np.abs(res['method'] - res['fn'])))
             ctx.check(e <= allowed, 'detrend.k%d.method==function' % k, lambda: _witness(err=e, allowed=allowed),
                       'Signal.remove_poly and generic.remove_poly differ by %.3g (allowed %.3g)' % (e, allowed))
+    finally:
+        _end()
+
+
+def _probe_one_sample(eqsig, ctx, p):
+    """One sample with degree >= 1: numpy.polyfit raises LinAlgError on the clean tree -> outside the domain, counted only."""
+    _begin('detrend', p)
+    try:
+        for api in ('method', 'fn'):
+            try:
+                if api == 'method':
+                    _mk_sig(eqsig, p.get('cls', 'AccSignal'), np.asarray(p['x']), p['dt']).remove_poly(int(p['k']))
+                else:
+                    eqsig.fns.generic.remove_poly(np.asarray(p['x']), int(p['k']))
+                ctx.observe('detrend.one-sample-degree>=1.%s.accepted' % api)
+            except Exception as e:
+                ctx.observe('detrend.one-sample-degree>=1.%s.raised-%s' % (api, type(e).__name__))
     finally:
         _end()
 
@@ -1867,9 +1922,14 @@ DETREND_N = [8, 9, 10, 13, 16, 31, 32, 33, 63, 64, 65, 100, 127, 128, 129, 200, 
              1999, 2000]
 
 
-def gen_detrend(rng, k):
+SHORT_N = (1, 2, 3, 4, 5, 6)       # round 4: very short records, every length x every degree / add variant / width class
+
+
+def gen_detrend(rng, k, n_fixed=None):
     r = rng.random()
-    if r < 0.15:
+    if n_fixed is not None:
+        n = int(n_fixed)
+    elif r < 0.15:
         n = k + 1 + int(rng.integers(0, 3))          # minimal lengths: k+1 (exact interpolation), k+2, k+3
     else:
         n = int(DETREND_N[int(rng.integers(len(DETREND_N)))])
@@ -1957,8 +2017,10 @@ ADD_VARIANTS = ['constant', 'series', 'series-bad', 'signal', 'signal-badlen', '
                 'series-self', 'signal-self', 'series-reuse', 'signal-reuse']
 
 
-def gen_add(rng, i):
+def gen_add(rng, i, n_fixed=None):
     n = int(rng.choice([1, 2, 3, 8, 31, 32, 33, 50, 64, 65, 127, 128, 129, 200, 256, 257, 1000]))
+    if n_fixed is not None:
+        n = int(n_fixed)
     x, cls = typed_record(rng, n, _pick_dtype(rng, 0.4))
     dt = float(_wide_dt(rng))
     p = {'x': x, 'dt': dt, 'cls': 'AccSignal' if rng.random() < 0.5 else 'Signal', 'kw': bool(rng.random() < 0.3),
@@ -2014,13 +2076,17 @@ def gen_add(rng, i):
     return p
 
 
-def gen_runavg(rng, i):
+def gen_runavg(rng, i, n_fixed=None):
     # includes records shorter than the window and lengths at / around powers of two (block-wise implementations)
     n = int(rng.choice([1, 2, 3, 4, 5, 7, 10, 24, 25, 26, 31, 32, 33, 50, 63, 64, 65, 100, 127, 128, 129, 200, 255, 256,
                         257, 512, 1025]))
     w = int(rng.integers(1, 26))
     if rng.random() < 0.1:
         w = 1
+    if n_fixed is not None:
+        n = int(n_fixed)
+        if rng.random() < 0.6:      # widths around the record length: window == / just inside / just past the record
+            w = int(rng.integers(1, min(25, 2 * n + 3) + 1))
     w_type = ['int', 'int', 'int', 'np', 'float', 'real'][int(rng.integers(6))]
     if w_type == 'real':
         # a width recovered from a duration: (k*dt)/dt or dt/(dt/k) for a step where the quotient is not exactly k
@@ -2153,9 +2219,10 @@ def gen_state(rng, i):
 # ------------------------------------------------------------------------------------------------------ workload
 COUNTS = {   # per shard
     'quick': {'sine': 60, 'edge': 15, 'sine_seq': 8, 'linear': 60, 'container': 6, 'short': 2, 'detrend': 70, 'add': 110,
-              'runavg': 80, 'history': 16, 'state': 18},
+              'runavg': 80, 'history': 16, 'state': 18, 'detrend_short': 14, 'add_short': 33, 'runavg_short': 18},
     'thorough': {'sine': 900, 'edge': 180, 'sine_seq': 150, 'linear': 1200, 'container': 100, 'short': 6, 'detrend': 2000,
-                 'add': 3300, 'runavg': 3000, 'history': 300, 'state': 600},
+                 'add': 3300, 'runavg': 3000, 'history': 300, 'state': 600, 'detrend_short': 140, 'add_short': 330,
+                 'runavg_short': 180},
 }
 
 
@@ -2337,6 +2404,44 @@ def run_shard(ctx):
         ctx.case(_dig('state', p), nontrivial=not np.array_equal(p['x'], p['y']),
                  cls='state-%s-%s' % (p['call']['op'], p['x'].dtype.name))
         case_state(eqsig, ctx, p)
+    # (the round-4 blocks come last so that the random streams of the workloads above are what they were)
+    # -- round 4: very short records (1..6 samples) x every degree 0..4 through the method and the function, INCLUDING
+    #    npts <= k (the best-fit degree-k polynomial interpolates the record: the result is zero); one sample with k >= 1
+    #    makes numpy.polyfit raise on the clean tree -> outside the domain, probed once per degree and counted only
+    short_combos = [(n, k) for n in SHORT_N for k in range(5) if not (n == 1 and k >= 1)]
+    for c in range(cnt['detrend_short']):
+        gi = c * nsh + sh
+        n, k = short_combos[(gi + (gi // len(short_combos)) * 3) % len(short_combos)]
+        p = gen_detrend(rng, k, n_fixed=n)
+        x = np.asarray(p['x'], dtype=float)
+        ctx.case(_dig('detrend', p), nontrivial=bool(n > 1 and np.ptp(x) > 0),
+                 cls='detrend-short-n%d-k%d%s' % (n, k, '-npts<=k' if n <= k else ''),
+                 sample={'k': k, 'n': n, 'class': p['record_class'], 'x': x, 'form': p['form'], 'dtype': p['x'].dtype.name})
+        ctx.observe('workload.short-record.detrend%s' % ('.npts<=k' if n <= k else ''))
+        case_detrend(eqsig, ctx, p)
+    if 1 <= sh <= 4 and nsh > 4:
+        p = gen_detrend(rng, sh, n_fixed=1)
+        ctx.observe('workload.short-record.detrend.one-sample-degree>=1')
+        case_detrend(eqsig, ctx, p)
+
+    # -- round 4: adds on records of 1..6 samples, every variant x every length
+    for c in range(cnt['add_short']):
+        gi = c * nsh + sh
+        p = gen_add(rng, gi, n_fixed=SHORT_N[(gi // len(ADD_VARIANTS)) % len(SHORT_N)])
+        ctx.case(_dig('add', p), nontrivial=True, cls='add-short-n%d-%s' % (len(p['x']), p['variant']))
+        ctx.observe('workload.short-record.add')
+        case_add(eqsig, ctx, p)
+
+    # -- round 4: running average on records of 1..6 samples (window inside / equal to / past the record)
+    for c in range(cnt['runavg_short']):
+        gi = c * nsh + sh
+        p = gen_runavg(rng, gi, n_fixed=SHORT_N[gi % len(SHORT_N)])
+        xx = np.asarray(p['x'], dtype=float)
+        ctx.case(_dig('runavg', p), nontrivial=bool(p['width'] >= 2 and len(xx) >= 2 and np.ptp(xx) > 0),
+                 cls='runavg-short-n%d%s' % (len(xx), '-shorter-than-window' if len(xx) < p['width'] else ''),
+                 sample={'n': len(xx), 'width': p['width'], 'dtype': p['x'].dtype.name, 'form': p['form']})
+        ctx.observe('workload.short-record.runavg')
+        case_runavg(eqsig, ctx, p)
     ctx.note('monitored_calls', dict(attach.CALLS))
     ctx.note('tolerances', {'gain': GAIN_TOL, 'detrend_rtol_x_cond': DETREND_RTOL, 'exact': EXACT_RTOL,
                             'float32_records': F32_RTOL, 'linear': 'scale*(1e-9 + 8 eps/wn^2)'})
@@ -2407,6 +2512,14 @@ def _min_evals():
         m['add_signal.rejects-dt-mismatch'] = add // 2
         m['add_signal.rejects-non-signal'] = add // 2
         m['runavg==mean-of-original-window'] = run // 2
+        # round 4: very short records. detrend: 6 of the 26 (n, k) combinations have npts <= k, each case executes the
+        # method / the function 4 times (twice on the same argument, on the detrended series, on series + polynomial)
+        for api in ('method', 'fn'):
+            m['detrend.%s.npts<=k.residual-zero' % api] = cnt['detrend_short'] * nsh * 6 * 4 // (26 * 2)
+        # 13 sums per 11 add variants (add_signal goes through add_series, the reuse variants add twice); the general
+        # workloads contribute their 3 of 17 (adds) / 5 of 27 (running average) lengths <= 6
+        m['add.npts<=6==element-wise-sum'] = (cnt['add_short'] + cnt['add'] * 3 // 17) * nsh * 13 // (len(ADD_VARIANTS) * 2)
+        m['runavg.npts<=6==mean-of-original-window'] = (cnt['runavg_short'] + cnt['runavg'] * 5 // 27) * nsh // 2
         m['runavg.length+dt-preserved'] = run // 2
         m['history.call==same-call-on-fresh-object'] = cnt['history'] * nsh * 2
         for how in FORK_OPS:
